@@ -1149,19 +1149,87 @@ func (e *c04Env) genCancel() {
 	e.cancel(app, e.pickUser(), e.pickPair(app), uint64(e.rng.Intn(30)))
 }
 
+// pairIDs returns the ids of the existing pairs of an app.
+func (e *c04Env) pairIDs(app uint64) []uint64 {
+	var ids []uint64
+	for _, p := range e.prev.pairs {
+		if p.app == app {
+			ids = append(ids, p.id)
+		}
+	}
+	return ids
+}
+
+// restingLimit places a limit order far enough from the reference price that it rests (sell above / buy below by 5-9 %).
+func (e *c04Env) restingLimit(app uint64, ui int, pairID uint64) {
+	ref := e.refPrice(app, pairID)
+	buy := e.rng.Chance(50)
+	bps := int64(500 + e.rng.Intn(400))
+	if buy {
+		bps = -bps
+	}
+	price := ref.Mul(sdkmath.LegacyNewDec(10000 + bps)).QuoInt64(10000)
+	amt := e.amount()
+	minAmt := sdkmath.LegacyNewDec(100).Quo(price).Ceil().TruncateInt()
+	if amt.LT(minAmt) {
+		amt = minAmt.MulRaw(2)
+	}
+	tp := e.tickPrec(app)
+	tick := amm.PriceToUpTick(price, tp)
+	offer := amt
+	if buy {
+		tick = amm.PriceToDownTick(price, tp)
+		offer = amm.OfferCoinAmount(amm.Buy, tick, amt)
+	}
+	fee := sdkmath.ZeroInt()
+	if r, ok := e.feeRate[app]; ok {
+		fee = offer.ToLegacyDec().MulTruncate(r).TruncateInt()
+	}
+	e.order(app, ui, pairID, 1, buy, offer.Add(fee), price, amt, 3600, false)
+}
+
+// genCancelAll: mostly an owner who holds orders, in apps with several pairs; often preceded by a FRESH order of the same
+// owner in a random pair of the app (so the owner's orders have mixed ages across pairs, in every order of pair ids);
+// pair-id lists: empty / one / a subset in random order / all / with an unknown, zero or repeated id.
 func (e *c04Env) genCancelAll() {
 	app := e.pickApp()
+	ui := e.pickUser()
+	if len(e.prev.orders) > 0 && e.rng.Chance(80) {
+		o := e.prev.orders[e.rng.Intn(len(e.prev.orders))]
+		if o.owner <= 4 {
+			app, ui = o.app, o.owner
+		}
+	}
+	ids := e.pairIDs(app)
+	if len(ids) > 0 && e.rng.Chance(50) {
+		e.restingLimit(app, ui, ids[e.rng.Intn(len(ids))])
+		e.tr.Count("cancelAll:after_fresh_order")
+	}
+	perm := append([]uint64{}, ids...)
+	for i := len(perm) - 1; i > 0; i-- {
+		j := e.rng.Intn(i + 1)
+		perm[i], perm[j] = perm[j], perm[i]
+	}
 	var pairs []uint64
-	switch e.rng.Intn(4) {
-	case 0:
-	case 1:
-		pairs = []uint64{e.pickPair(app)}
-	case 2:
-		pairs = []uint64{1, 2}
+	switch e.rng.Intn(10) {
+	case 0, 1, 2:
 	case 3:
+		if len(perm) > 0 {
+			pairs = perm[:1]
+		}
+	case 4, 5:
+		if len(perm) > 1 {
+			pairs = perm[:1+e.rng.Intn(len(perm)-1)]
+		}
+	case 6, 7:
+		pairs = perm
+	case 8:
+		pairs = append(perm, uint64(7+e.rng.Intn(3))) // unknown pair id
+	case 9:
 		pairs = []uint64{e.pickPair(app), e.pickPair(app)} // possibly duplicate / zero
 	}
-	e.cancelAll(app, e.pickUser(), pairs)
+	e.tr.Count(fmt.Sprintf("cancelAll:pairs=%d/of=%d", len(pairs), len(ids)))
+	e.cancelAll(app, ui, pairs)
 }
 
 func (e *c04Env) genCancelMM() {
@@ -1381,11 +1449,11 @@ func (e *c04Env) runRandom(blocks int, mode int) {
 			r := e.rng.Intn(100)
 			w := [][]int{
 				// limit market mm cancel cancelAll cancelMM pair pool deposit withdraw farm unfarm dAF uAW
-				{34, 8, 6, 10, 3, 3, 2, 4, 8, 7, 5, 4, 3, 3},
-				{50, 10, 2, 16, 5, 1, 1, 3, 4, 3, 2, 1, 1, 1},
+				{32, 8, 6, 10, 5, 3, 2, 4, 8, 7, 5, 4, 3, 3},
+				{47, 10, 2, 16, 8, 1, 1, 3, 4, 3, 2, 1, 1, 1},
 				{10, 2, 1, 2, 1, 1, 2, 8, 18, 15, 14, 12, 7, 7},
 				{20, 4, 28, 8, 4, 16, 2, 4, 4, 3, 2, 2, 2, 1},
-				{70, 0, 0, 10, 3, 0, 1, 2, 4, 3, 2, 2, 2, 1},
+				{67, 0, 0, 10, 6, 0, 1, 2, 4, 3, 2, 2, 2, 1},
 			}[mode]
 			k := 0
 			for acc := 0; k < len(w); k++ {
@@ -1519,6 +1587,32 @@ func (e *c04Env) witnessLifecycle() {
 	e.nextBlock(5)
 }
 
+// witnessCancelAll: one app with three pairs, one owner with orders of mixed ages in all of them; cancel-all with empty,
+// partial (in both orders of ids), full and unknown pair-id lists.  In particular: an older order in a HIGHER-id pair behind a
+// current-batch order in a LOWER-id pair (the owner index is keyed (orderer, pairId, orderId)).
+func (e *c04Env) witnessCancelAll() {
+	d := func(s string) sdkmath.LegacyDec { return sdkmath.LegacyMustNewDecFromStr(s) }
+	n := func(x int64) sdkmath.Int { return sdkmath.NewInt(x) }
+	e.createPair(1, 0, e.coins[1], e.coins[2]) // app 1: pairs 1, 2, 3
+	e.createPair(1, 0, e.coins[2], e.coins[3])
+	e.createPair(1, 0, e.coins[3], e.coins[4])
+	sell := func(ui int, pair uint64) { e.order(1, ui, pair, 1, false, n(1_003_000), d("1.0"), n(1_000_000), 3600, false) }
+	rounds := [][]uint64{nil, {1, 2, 3}, {3, 1}, {2}, {2, 3}, {1, 9}}
+	for _, pairs := range rounds {
+		sell(1, 2) // older orders in pairs 2 and 3 (and one of another user)
+		sell(1, 3)
+		sell(2, 3)
+		e.nextBlock(5)
+		sell(1, 1) // fresh orders of the same owner in pairs 1 and 3
+		sell(1, 3)
+		e.cancelAll(1, 1, pairs)
+		e.nextBlock(5)
+		e.cancelAll(1, 1, nil) // now everything of user 1 is old
+		e.cancelAll(1, 2, []uint64{3, 2})
+		e.nextBlock(5)
+	}
+}
+
 func c04Run(t *testing.T, prop string) {
 	tr := OpenTrace(t, strings.ToLower(prop)+".trace")
 	defer tr.Close(t)
@@ -1529,6 +1623,8 @@ func c04Run(t *testing.T, prop string) {
 	tr.Set("witness_D4_msgs", e.msgCnt)
 	e = c04NewEnv(t, tr, rng, prop, 0)
 	e.witnessLifecycle()
+	e = c04NewEnv(t, tr, rng, prop, 0)
+	e.witnessCancelAll()
 	nseq := scale(10, 120)
 	blocks := scale(45, 110)
 	if os := envInt("VERIF_SEARCH", 0); os == 1 {
